@@ -2,7 +2,7 @@
 Properties/C09.v about Model/UnitTimers.v; end-to-end correspondence of the closed-loop model
 simulation with real nextest runs over the scripted puppet; oracle from the property text."""
 import json, os
-import vlib, e2e, units_e2e as U
+import vlib, e2e, units_e2e as U, gen_tie
 
 PROP = "C09"
 
@@ -60,6 +60,10 @@ def run(tier, seed):
         chk.violation("broken-obligation", "pause-table-translator", dict(error=msg), no_input=True)
     gate = vlib.coq_gate(PROP, extra_targets=["Model/UnitEnv.vo", "gen/GenPauseTable.vo"])
     vlib.gate_or_violation(chk, gate)
+    # DESIGN 11.7: these decision functions are regenerated from the Rust source and proved equal to the
+    # model's for all inputs; a failure is reported when the check finishes unless a stage below finds a
+    # concrete failing input
+    gen_tie.gate(chk, ['timeout_terminate_method'], gate)
     try:
         rig = e2e.Rig()
     except RuntimeError as ex:
